@@ -267,6 +267,8 @@ def run(P, R, tier):
     except AnalysisError:
         pass
     for o in sub.obs:
+        if o.rule == 'C12.a' and ('every geometry column' in o.detail or 'under the column' in o.detail or 'late' in o.detail):
+            R._add('C20.d', (o.path, o.site.split('::')[-1]), None, o.status, 'the bounds recorded for the active geometry must be its own: ' + o.detail, construct=o.construct)
         if o.rule == 'C12.b' and 'fromkeys' in (o.construct or ''):
             R._add('C20.d', (o.path, o.site.split('::')[-1]), None, o.status, 'the bounds recorded for the active geometry must be its own: ' + o.detail, construct=o.construct)
         if o.rule == 'C12.e':
